@@ -768,7 +768,17 @@ func (g *seqGen) deleteAll(fh string, depth int) {
 		for _, e := range c.Ents {
 			cookie = e.Cookie
 			if e.Name != "." && e.Name != ".." {
-				ents = append(ents, ent{e.Name, e.Fh, e.Type == 2})
+				efh, isdir := e.Fh, e.Type == 2
+				if !e.Plus || efh == "" { // attributes and handle are optional in a READDIRPLUS reply
+					l := NewCall("LOOKUP")
+					l.Fh, l.Name, l.NLen = fh, e.Name, len(e.Name)
+					g.emit(l)
+					if l.St != "OK" {
+						continue
+					}
+					efh, isdir = l.RFh, l.RType == 2
+				}
+				ents = append(ents, ent{e.Name, efh, isdir})
 			}
 		}
 		if c.REof || len(c.Ents) == 0 {
